@@ -79,15 +79,23 @@ _FAM = poolsib.Family(POOLS)
 FN_NAMES = set()
 
 
+def _extern_names(w):
+    """names of external functions called from the workspace (their pool siblings count too)"""
+    for g in w.fns.values():
+        for _bb, t in g.body.calls():
+            if t.callee.indirect is None:
+                FN_NAMES.add(t.callee.target_p().rsplit("::", 1)[-1])
+
+
 def name_tag(name):
     if not name:
         return None
     return _FAM.tag_of(name)
 
 
-def origin_tags(body, o, depth=0, acc=None):
+def origin_tags(body, o, depth=0, acc=None, argtags=None):
     """pool tags found in the names along an origin tree (local debug names, field names,
-    callee names)"""
+    callee names); argtags: tags bound to the body's arguments by a call site"""
     acc = acc if acc is not None else set()
     if not isinstance(o, tuple) or depth > 12:
         return acc
@@ -100,11 +108,13 @@ def origin_tags(body, o, depth=0, acc=None):
         t = name_tag(body.local_name(o[1] + 1))
         if t:
             acc.add(t)
+        if argtags and o[1] in argtags:
+            acc.update(argtags[o[1]])
     elif k == "field":
         t = name_tag(o[2][1:])
         if t:
             acc.add(t)
-        origin_tags(body, o[1], depth + 1, acc)
+        origin_tags(body, o[1], depth + 1, acc, argtags)
     elif k == "call":
         last = o[1].rsplit("::", 1)[-1]
         t = name_tag(last)
@@ -115,23 +125,23 @@ def origin_tags(body, o, depth=0, acc=None):
         # a tagged callee decides; otherwise look at its arguments
         if not t:
             for a in o[2]:
-                origin_tags(body, a, depth + 1, acc)
+                origin_tags(body, a, depth + 1, acc, argtags)
     elif k in ("ref", "deref", "variant", "proj", "disc"):
-        origin_tags(body, o[1], depth + 1, acc)
+        origin_tags(body, o[1], depth + 1, acc, argtags)
     elif k == "cast":
-        origin_tags(body, o[2], depth + 1, acc)
+        origin_tags(body, o[2], depth + 1, acc, argtags)
     elif k in ("bin",):
-        origin_tags(body, o[2], depth + 1, acc)
-        origin_tags(body, o[3], depth + 1, acc)
+        origin_tags(body, o[2], depth + 1, acc, argtags)
+        origin_tags(body, o[3], depth + 1, acc, argtags)
     elif k == "un":
-        origin_tags(body, o[2], depth + 1, acc)
+        origin_tags(body, o[2], depth + 1, acc, argtags)
     elif k == "agg":
         last = o[1].rsplit("::", 1)[-1]
         t = name_tag(last)
         if t and not o[1].startswith("closure:"):
             acc.add(t)
         for a in o[2]:
-            origin_tags(body, a, depth + 1, acc)
+            origin_tags(body, a, depth + 1, acc, argtags)
     return acc
 
 
@@ -142,6 +152,7 @@ def ps3(chk, w, in_scope, rule="PS-3", min_tagged_params=2):
     n = 0
     if not FN_NAMES:
         FN_NAMES.update(g.p.rsplit("::", 1)[-1] for g in w.fns.values() if not g.is_closure())
+        _extern_names(w)
     for f in sorted(w.fns.values(), key=lambda f: f.p):
         if not in_scope(f):
             continue
@@ -185,4 +196,87 @@ def ps3(chk, w, in_scope, rule="PS-3", min_tagged_params=2):
                 chk.ok(rule, "%s -> %s: pool-tagged arguments bind the matching parameters [%s]"
                        % (f.p.rsplit("::", 1)[-1], tg.p.rsplit("::", 2)[-2] + "::" +
                           tg.p.rsplit("::", 1)[-1], t.span.loc()))
+    return n
+
+
+# ----------------------------------------------------------------------------- PS-4
+def _closure_bindings(w, parent, clos):
+    """call sites of closure `clos` in `parent`: list of (span, {closure arg index: tags})"""
+    out = []
+    du = defuse.DefUse(parent.body)
+    for bb, t in parent.body.calls():
+        if parent.body.blocks[bb].cleanup or t.callee.indirect is not None:
+            continue
+        if t.callee.target_id() != clos.id or len(t.args) != 2:
+            continue
+        tup = du.origin(t.args[1])
+        if tup[0] == "agg" and tup[1] == "tuple":
+            out.append((t.span, {i + 1: origin_tags(parent.body, a) for i, a in enumerate(tup[2])}))
+    # handed to an Option/Result combinator: the closure's parameter is the receiver's payload
+    for bb, t in parent.body.calls():
+        if parent.body.blocks[bb].cleanup or t.callee.indirect is not None or len(t.args) < 2:
+            continue
+        if not re.search(r"^core::(option::Option::<T>|result::Result::<T, E>)::"
+                         r"(map|map_or|map_or_else|and_then|is_some_and|is_none_or|is_ok_and|filter|"
+                         r"inspect|then)$", t.callee.target_p()):
+            continue
+        for a in t.args[1:]:
+            o = du.origin(a)
+            if o[0] == "agg" and o[1] == "closure:" + clos.id:
+                out.append((t.span, {1: origin_tags(parent.body, du.origin(t.args[0]))}))
+    return out
+
+
+def ps4(chk, w, in_scope, rule="PS-4"):
+    """a call to a pool-generic workspace helper (no pool-tagged parameter name) must not mix
+    operands of two different pools: every argument that carries exactly one pool tag carries the
+    same one.  Closures are examined once per call site of the closure, with the tags the call
+    site binds to the closure's parameters."""
+    n = 0
+    if not FN_NAMES:
+        FN_NAMES.update(g.p.rsplit("::", 1)[-1] for g in w.fns.values() if not g.is_closure())
+        _extern_names(w)
+    for f in sorted(w.fns.values(), key=lambda f: f.p):
+        root = w.fns.get(f.root) if f.is_closure() else f
+        if root is None or not in_scope(root):
+            continue
+        contexts = [(None, None)]
+        if f.is_closure():
+            par = [g for g in w.fns.values() if f.id in w.callees(g.id) and
+                   (g.id == f.root or g.root == f.root)]
+            b = [x for g in par for x in _closure_bindings(w, g, f)]
+            if b:
+                contexts = b
+        du = None
+        ordn = {}
+        for bb, t in f.body.calls():
+            if f.body.blocks[bb].cleanup or t.callee.indirect is not None:
+                continue
+            tg = w.fns.get(t.callee.target_id())
+            if tg is None or tg.is_closure() or not tg.argnames or len(t.args) < 2:
+                continue
+            if any(name_tag(a) for a in tg.argnames):
+                continue
+            du = du or defuse.DefUse(f.body)
+            k0 = "%s/%s" % (f.p, tg.p)
+            ordn[k0] = ordn.get(k0, 0) + 1
+            for span, argtags in contexts:
+                tags = {}
+                for i, a in enumerate(t.args):
+                    at = origin_tags(f.body, du.origin(a), argtags=argtags)
+                    if len(at) == 1:
+                        tags.setdefault(next(iter(at)), []).append(i)
+                if len(tags) < 1 or sum(len(v) for v in tags.values()) < 2:
+                    continue
+                n += 1
+                if len(tags) > 1:
+                    chk.fail(rule, "%s#%d" % (k0, ordn[k0]), "the pool-generic helper %s receives "
+                             "operands of different pools in one call: %s%s"
+                             % (tg.p.rsplit("::", 1)[-1],
+                                ", ".join("argument(s) %s %s" % (v, POOLS[k]) for k, v in sorted(tags.items())),
+                                (" (closure invoked at %s)" % span.loc()) if span else ""), t.span.loc())
+                else:
+                    chk.ok(rule, "%s -> %s: all pool-tagged operands are %s [%s]"
+                           % (f.p.rsplit("::", 1)[-1], tg.p.rsplit("::", 1)[-1],
+                              POOLS[next(iter(tags))], t.span.loc()))
     return n
